@@ -80,6 +80,8 @@ package pdf
 //@   ensures old(s.err) != nil ==> err == old(s.err) && s.pos == old(s.pos) && s.used == old(s.used)
 //@   ensures err == nil && s.err == nil && s.used < 1024 ==> s.src.rdpos == len(s.src.stream) && !s.src.fails
 //@   ensures err != nil ==> err == s.err && s.src.fails
+//@   ensures err == nil && s.err != nil ==> s.used > 0
+//@   ensures err != nil ==> s.used - s.pos == old(s.used - s.pos)
 //@   ensures s.src.stream == old(s.src.stream)
 
 //@ pred scanFrame(s *scanner) = s.P0 == old(s.P0) && s.src.stream == old(s.src.stream) && s.src == old(s.src) && s.src.fails == old(s.src.fails) && refof(s.buf) == old(refof(s.buf))
@@ -105,3 +107,19 @@ package pdf
 //@   ensures err == nil ==> apos(s) == old(apos(s)) + 1 && c == s.src.stream[old(apos(s)) - s.P0]
 //@   ensures err != nil ==> apos(s) == old(apos(s)) && atEnd(s)
 //@   ensures err != nil && err != io.EOF ==> s.src.fails
+
+//@ func (*scanner).ScanBytes (s, accept) (err)
+//@   tags C01 C04 C05 C19 C20
+//@   inline
+//@   callback accept pure
+//@   requires R(s)
+//@   assigns s.filePos, s.pos, s.used, s.err, elems(s.buf), s.src.rdpos
+//@   ensures R(s) && scanFrame(s)
+//@   ensures apos(s) >= old(apos(s))
+//@   ensures err == io.EOF ==> atEnd(s) && !s.src.fails
+//@   ensures err != nil && err != io.EOF ==> s.src.fails && err == s.err && atEnd(s)
+//@   ensures s.src.fails && atEnd(s) ==> err != nil
+//@   loop 1: invariant R(s) && scanFrame(s) && apos(s) >= old(apos(s)) && (empty <==> apos(s) == old(apos(s)))
+//@   loop 1: decreases avail(s), (s.pos < s.used ? 0 : 1)
+//@   loop 2: invariant R(s) && scanFrame(s) && apos(s) >= old(apos(s)) && (empty <==> apos(s) == old(apos(s)))
+//@   loop 2: decreases s.used - s.pos
